@@ -121,8 +121,11 @@ package consensus
 // ---------------------------------------------------------------------------------------------------------------------
 // C04 / C02: the transactions of a received block: none executed on the branch before, none twice in the block, each inside its
 // expiry window at the block's time.
+// the implementation (txpool.TxGuard -> TxTracer.LoadTraces) hashes every transaction and every sub-transaction of a box payload:
+// it needs them non-nil
 //@ func (TxGuard).ExistTxs   pure trusted
 //@   opt reads=heap
+//@   requires forall(i, 0, len(txs), txs[i] != nil && types.boxOK(txs[i]))
 
 //@ pred wfTxs(txs types.Transactions) = forall(i, 0, len(txs), txs[i] != nil && txs[i].data.GasPrice != nil && txs[i].data.Amount != nil)
 
@@ -130,10 +133,12 @@ package consensus
 //@   props C04 C02
 //@   requires block != nil && block.Header != nil && wfTxs(block.Txs) && params.MinGasPrice != nil
 //@   modifies nothing
-//@   ensures result == nil ==> !old(txGuard.ExistTxs(block.ParentHash(), block.Txs))
+//@   ensures result == nil ==> forall(i, 0, len(block.Txs), types.boxOK(block.Txs[i]))
+//@   ensures result == nil ==> !txGuard.ExistTxs(block.ParentHash(), block.Txs)
 //@   ensures result == nil ==> forall(i, 0, len(block.Txs), forall(j, 0, len(block.Txs), i != j ==> block.Txs[i].Hash() != block.Txs[j].Hash()))
 //@   ensures result == nil ==> forall(i, 0, len(block.Txs), uint64(block.Time()) <= block.Txs[i].data.Expiration && block.Txs[i].data.Expiration - uint64(block.Time()) <= 1800)
 //@   ensures result != nil ==> result == ErrVerifyBlockFailed
+//@   invariant @loop 0: forall(i, 0, $k, types.boxOK(block.Txs[i]))
 //@   invariant @loop 0: 0 <= $k && $k <= len(block.Txs) && seen != nil && forall(i, 0, $k, uint64(block.Time()) <= block.Txs[i].data.Expiration && block.Txs[i].data.Expiration - uint64(block.Time()) <= 1800)
 //@   invariant @loop 0: forall(i, 0, $k, has(seen, block.Txs[i].Hash())) && forall(i, 0, $k, forall(j, 0, $k, i != j ==> block.Txs[i].Hash() != block.Txs[j].Hash()))
 //@   invariant @loop 1: len(hashes) >= 1 && hashes[0] == tx.Hash() && fresh(hashes)
@@ -216,6 +221,7 @@ package consensus
 //@   ensures result == nil ==> exists(i, 0, len(ds), content(ds[i].NodeID) == types.nodeKeyOf(block.Hash(), content(block.Header.SignData)) && ds[i].MinerAddress == block.MinerAddress())
 //@   ensures result == nil ==> block.Time() >= 10000000 && res1(GetCorrectMiner(res0(p).Header, int64(block.Time()) * 1000, int64(v.mineTimeout), v.dm)) == nil
 //@   ensures result == nil ==> block.Time() >= 10000000 && res0(GetCorrectMiner(res0(p).Header, int64(block.Time()) * 1000, int64(v.mineTimeout), v.dm)) == block.MinerAddress()
+//@   ensures result == nil ==> forall(i, 0, len(block.Txs), types.boxOK(block.Txs[i]))
 //@   ensures result == nil ==> !v.txGuard.ExistTxs(block.ParentHash(), block.Txs)
 //@   ensures result == nil ==> forall(i, 0, len(block.Txs), forall(j, 0, len(block.Txs), i != j ==> block.Txs[i].Hash() != block.Txs[j].Hash()))
 //@   ensures result == nil ==> forall(i, 0, len(block.Txs), uint64(block.Time()) <= block.Txs[i].data.Expiration && block.Txs[i].data.Expiration - uint64(block.Time()) <= 1800)
